@@ -21,6 +21,8 @@ STUBS = [
     "hash, structural Expr.__eq__ forking on constant equality",
     "memo caches (ExpressionSimplifier.cache, canonize/contains visitor caches, Expr.canon_exprs, "
     "Expr.args2expr) cleared at the start of every path",
+    "expression sizes / slice bounds that arrive as symbolic ints are concretised by exhaustive enumeration in "
+    "the Expr constructors",
 ]
 
 _DEFAULT_MODULES = [
@@ -88,6 +90,27 @@ def _ne(self, other):
     return not _eq(self, other)
 
 
+def _concrete_args(cls, idxs, names=('size', 'start', 'stop')):
+    import builtins
+    on, oi = cls.__new__, cls.__init__
+
+    def conv(args):
+        return tuple(builtins.int(a) if (i in idxs and isinstance(a, SymInt)) else a
+                     for i, a in enumerate(args))
+
+    def convk(kw):
+        return {k: (builtins.int(v) if (k in names and isinstance(v, SymInt)) else v)
+                for k, v in kw.items()}
+
+    def __new__(c, *args, **kw):
+        return on(c, *conv(args), **convk(kw))
+
+    def __init__(self, *args, **kw):
+        return oi(self, *conv(args), **convk(kw))
+    cls.__new__ = __new__
+    cls.__init__ = __init__
+
+
 def install(extra_modules=()):
     for m in list(_DEFAULT_MODULES) + list(extra_modules):
         patch_int(m)
@@ -101,6 +124,11 @@ def install(extra_modules=()):
     E.ExprInt.__str__ = lambda self: "%s" % (self._arg,)
     E.Expr.__eq__ = _eq
     E.Expr.__ne__ = _ne
+    # sizes and slice bounds must be concrete python ints: concretise (exhaustive enumeration)
+    _concrete_args(E.ExprInt, (1,))
+    _concrete_args(E.ExprSlice, (1, 2))
+    _concrete_args(E.ExprMem, (1,))
+    _concrete_args(E.ExprId, (1,))
     # subclasses that define __eq__ nowhere inherit; ExprAssign etc. fine.
 
 
